@@ -352,7 +352,8 @@ func genC05(r *Rand, tier string) []Case {
 			q.Order = append(q.Order, OrderKey{Path: []string{"o", "p", "q"}, Asc: r.Bool()})
 		}
 		nk := 1 + r.Intn(3)
-		keys := [][]string{{"n1"}, {"n2"}, {"s1"}, {"s2"}, {"k"}, {"id"}, {"o", "p", "q"}}
+		// {"o","k"} renders as the qualified name o.k (qualifier + column), the three-step path as one quoted name
+		keys := [][]string{{"n1"}, {"n2"}, {"s1"}, {"s2"}, {"k"}, {"id"}, {"o", "p", "q"}, {"o", "k"}}
 		for j := 0; j < nk; j++ {
 			k := Pick(r, keys)
 			asc := r.Bool()
